@@ -15,6 +15,7 @@ import (
 	"path/filepath"
 	"sort"
 	"strings"
+	"sync"
 
 	"github.com/buildkite/go-pipeline/jwkutil"
 	"github.com/lestrrat-go/jwx/v2/jwa"
@@ -291,6 +292,71 @@ func checkC18(c *run.Ctx) {
 		}
 	}
 
+	// Pairs generated by many goroutines at once (an agent pool generating keys in parallel): every pair is its own
+	// key - no two pairs share key material, and what one signs verifies under its own public half only.
+	c.Phase("concurrent-generation", func() {
+		var mu sync.Mutex
+		seen := map[string]string{} // public thumbprint -> who generated it
+		c.Parallel("congen", c.N(96, 640), func(i int, r *mrand.Rand) {
+			id := run.CaseID("congen", i)
+			type one struct {
+				alg       jwa.SignatureAlgorithm
+				priv, pub jwk.Key
+			}
+			var mine []one
+			for k := 0; k < 50; k++ {
+				alg := jwa.EdDSA
+				if k%25 == 24 {
+					alg = jwa.ES512
+				}
+				privSet, pubSet, err := jwkutil.NewKeyPair(fmt.Sprintf("con-%d-%d", i, k), alg)
+				if err != nil {
+					c.Violation(id, map[string]any{"what": "NewKeyPair failed under concurrent use: " + err.Error()})
+					return
+				}
+				priv, _ := privSet.Key(0)
+				pub, _ := pubSet.Key(0)
+				c.Eval(1)
+				if err := jwkutil.Validate(priv); err != nil {
+					c.Violation(id, map[string]any{"what": "a key generated under concurrent use does not validate: " + err.Error()})
+					return
+				}
+				who := fmt.Sprintf("%s pair %d of batch %d", alg, k, i)
+				t := c18Thumb(pub)
+				if tp := c18Thumb(priv); tp != t {
+					c.Violation(id, map[string]any{"what": "the two halves of a generated pair are not the same key (" + who + ")"})
+					return
+				}
+				mu.Lock()
+				prev, dup := seen[t]
+				seen[t] = who
+				mu.Unlock()
+				if dup {
+					c.Violation(id, map[string]any{"what": "two generated key pairs are the same key: what one signs verifies under the other (" + prev + " and " + who + ")", "public_thumbprint_sha256": t})
+					return
+				}
+				mine = append(mine, one{alg, priv, pub})
+			}
+			// own half verifies, the neighbour's does not
+			for k := 0; k+1 < len(mine); k += 7 {
+				sig, err := jws.Sign(nil, jws.WithKey(mine[k].alg, mine[k].priv), jws.WithDetachedPayload(payload), jws.WithCompact())
+				if err != nil {
+					c.Violation(id, map[string]any{"what": "signing with a generated private key failed: " + err.Error()})
+					return
+				}
+				_, errOwn := jws.Verify(sig, jws.WithKey(mine[k].alg, mine[k].pub), jws.WithDetachedPayload(payload))
+				_, errNext := jws.Verify(sig, jws.WithKey(mine[k+1].alg, mine[k+1].pub), jws.WithDetachedPayload(payload))
+				if errOwn != nil || errNext == nil {
+					c.Violation(id, map[string]any{"what": fmt.Sprintf("generated under concurrent use: own public half: %v; next generated key: %v (want nil / an error)", errOwn, errNext)})
+					return
+				}
+				c.Count("concurrent_generation_cross_checks", 1)
+			}
+			c.Count("pairs_generated_concurrently", len(mine))
+		})
+		c.Count("distinct_keys_generated_concurrently", len(seen))
+	})
+
 	// ---- Phase 3: LoadKey over small key-set files.
 	scratch := os.Getenv("GPV_SCRATCH")
 	if scratch == "" {
@@ -443,6 +509,91 @@ func checkC18(c *run.Ctx) {
 						c.Violation(id, desc)
 					}
 				}
+			}
+		}
+		_ = os.Remove(path)
+	}
+	// large key-set files: hundreds of members (100 KiB and more), a single key carrying a long private member, a
+	// file padded with white space - the requested id is found wherever it sits, the only key of a long file loads
+	for f, nk := range []int{64, 400, 700, 1500}[:c.N(3, 4)] {
+		var members []member
+		set := jwk.NewSet()
+		for i := 0; i < nk; i++ {
+			m := mkMember(r, fmt.Sprintf("big-%d", i), 0)
+			members = append(members, m)
+			must(c, set.AddKey(m.key))
+		}
+		b, err := json.Marshal(set)
+		must(c, err)
+		if f%2 == 1 {
+			b, err = json.MarshalIndent(set, "", "    ")
+			must(c, err)
+		}
+		path := filepath.Join(scratch, fmt.Sprintf("bigset-%d.json", nk))
+		must(c, os.WriteFile(path, b, 0o600))
+		c.Max("largest_key_set_file_bytes", int64(len(b)))
+		for _, pick := range []int{0, 1, nk / 2, nk - 2, nk - 1, -1} {
+			req := "big-absent"
+			if pick >= 0 {
+				req = members[pick].kid
+			}
+			id := fmt.Sprintf("load-big/%d/%s", nk, req)
+			var got jwk.Key
+			var lerr error
+			if pi := run.Guard(func() { got, lerr = jwkutil.LoadKey(path, req) }); pi != nil {
+				c.Violation(id, map[string]any{"what": "LoadKey panicked: " + pi.Value, "stack": pi.Stack})
+				continue
+			}
+			c.Eval(1)
+			c.Feature("load-big", nk, pick)
+			switch {
+			case pick < 0 && lerr == nil:
+				c.Violation(id, map[string]any{"what": fmt.Sprintf("LoadKey found an id that none of the %d members carries", nk)})
+			case pick >= 0 && lerr != nil:
+				c.Violation(id, map[string]any{"what": fmt.Sprintf("LoadKey failed for a uniquely identified valid key (member %d of %d, file of %d bytes): %v", pick+1, nk, len(b), lerr)})
+			case pick >= 0 && c18Thumb(got) != c18Thumb(members[pick].key):
+				c.Violation(id, map[string]any{"what": fmt.Sprintf("LoadKey returned a different key than member %d of %d", pick+1, nk)})
+			default:
+				c.Count("loadkey_large_files_checked", 1)
+			}
+		}
+		_ = os.Remove(path)
+	}
+	for f, pad := range []int{1000, 65000, 66000, 70000, 300000} {
+		m := mkMember(r, "only", f%3)
+		set := jwk.NewSet()
+		must(c, set.AddKey(m.key))
+		b, err := json.Marshal(set)
+		must(c, err)
+		var text string
+		if f%2 == 0 {
+			// a long private member inside the key
+			text = strings.Replace(string(b), `{"keys":[{`, `{"keys":[{"x-note":"`+strings.Repeat("n", pad)+`",`, 1)
+		} else {
+			text = string(b) + strings.Repeat(" \n", pad/2)
+		}
+		path := filepath.Join(scratch, fmt.Sprintf("padded-%d.json", pad))
+		must(c, os.WriteFile(path, []byte(text), 0o600))
+		c.Max("largest_key_set_file_bytes", int64(len(text)))
+		for _, req := range []string{"", "only", "other"} {
+			id := fmt.Sprintf("load-padded/%d/%s", pad, req)
+			var got jwk.Key
+			var lerr error
+			if pi := run.Guard(func() { got, lerr = jwkutil.LoadKey(path, req) }); pi != nil {
+				c.Violation(id, map[string]any{"what": "LoadKey panicked: " + pi.Value, "stack": pi.Stack})
+				continue
+			}
+			c.Eval(1)
+			c.Feature("load-padded", pad, req)
+			switch {
+			case req == "other" && lerr == nil:
+				c.Violation(id, map[string]any{"what": "LoadKey found an id the only member does not carry"})
+			case req != "other" && lerr != nil:
+				c.Violation(id, map[string]any{"what": fmt.Sprintf("LoadKey failed for the only (valid) key of a file of %d bytes: %v", len(text), lerr)})
+			case req != "other" && c18Thumb(got) != c18Thumb(m.key):
+				c.Violation(id, map[string]any{"what": "LoadKey returned a different key than the only member"})
+			default:
+				c.Count("loadkey_large_files_checked", 1)
 			}
 		}
 		_ = os.Remove(path)
